@@ -19,7 +19,20 @@ def classify_exception(tb_text, repo):
     return ('%s/seismic_zfp/' % repo) in tb_text
 
 
+def die_with_parent():
+    """A worker must not outlive its driver (killed run, timeout of the caller)."""
+    try:
+        import ctypes
+        import signal
+        ctypes.CDLL('libc.so.6', use_errno=True).prctl(1, signal.SIGKILL)      # PR_SET_PDEATHSIG
+        if os.getppid() == 1:
+            os._exit(0)
+    except Exception:  # noqa
+        pass
+
+
 def main():
+    die_with_parent()
     prop, cases_path, out_path = sys.argv[1:4]
     case_timeout = float(sys.argv[4]) if len(sys.argv) > 4 else 300.0
     from . import env
